@@ -523,6 +523,34 @@ def E3(ctx):
                     g = [canon(ge) for (ge, pol, v, sb) in guard_atoms(cb, b) if pol is True]
                     if any(lname in x and "eq(" in x for x in g):
                         act = True
+    # while the running thread can continue, nothing else may (re)write the default choice: every other write or mutable borrow of
+    # the local is unreachable in the scenario `active().is_runnable()`
+    def a_run(body_, b, t, e):
+        pol = True
+        while e[0] == "unop" and e[1] == "Not":
+            e = e[2]
+            pol = not pol
+        if e[0] == "call" and e[1] == T + "::is_runnable" and e[2] and mentions_call(e[2][0], "rt::thread::Set::active"):
+            return switch_targets_for(t, pol)
+        return None
+    reached, _ = PEval(body, a_run).run()
+    rewritten = []
+    for b in sorted(reached):
+        if body.blocks[b]["cleanup"]:
+            continue
+        for s in body.blocks[b]["stmts"]:
+            if s["k"] in ("=", "setdiscr") and s["lhs"]["l"] == li and b not in some_active:
+                rewritten.append(b)
+            if s["k"] == "=" and s["rv"]["k"] in ("ref", "rawptr") and s["rv"].get("mut") and s["rv"]["place"]["l"] == li:
+                bl = s["lhs"]["l"]
+                into_closure = any(k2 == "stmt" and o["k"] == "=" and o["rv"]["k"] == "agg" and o["rv"].get("closure")
+                                   for (b2, k2, o) in body.uses_of_local(bl))
+                if not into_closure:
+                    rewritten.append(b)
+    if rewritten:
+        ctx.bad("E3", fk, "the scheduler's default choice is rewritten although the running thread can continue: a branch of a runnable "
+                "thread then defaults to another thread, and the switch is not counted as a preemption", site_str(prog, fk, rewritten[0]),
+                detail="rewritten")
     if ok and recv_ok and act:
         ctx.ok("E3", fk, "default = the active thread unless it is not runnable; the default is seeded as Thread::Active", [site_str(prog, fk, some_active[0])])
     else:
@@ -543,12 +571,11 @@ def E4(ctx):
     if len(calls) != 3:
         ctx.bad("E4", fk, "Path::backtrack shape changed (%d Schedule::backtrack calls, expected 3)" % len(calls), fn.loc(), detail="shape")
         return
-    r_none, _ = PEval(body, assume_calls({"std::option::Option::<T>::is_some": False})).run()
-    r_some, _ = PEval(body, assume_calls({"std::option::Option::<T>::is_some": True})).run()
+    r_none, _ = PEval(body, assume_option_field(P, "preemption_bound", False)).run()
+    r_some, _ = PEval(body, assume_option_field(P, "preemption_bound", True)).run()
     primary = [b for b in calls if b in r_none]
     extra = [b for b in calls if b not in r_none]
-    iss = [t for (b, t, c) in prog.sites(inst) if callee_path(t).endswith("Option::<T>::is_some")]
-    bound_guard = iss and all(is_field(arg_expr(body, t, 0), P, "preemption_bound") for t in iss)
+    bound_guard = True      # the two scenarios differ only in the tests of Path.preemption_bound itself
     if len(primary) == 1 and len(extra) == 2 and all(b in r_some for b in extra) and bound_guard:
         ctx.ok("E4", fk, "the conservative extra backtrack points exist only under a preemption bound", [site_str(prog, fk, b) for b in extra])
     else:
